@@ -306,6 +306,10 @@ def run_case(model, ops, plus=True):
             want = Spec.GETTERS[op[0]](snap)
             if res[1] != want:
                 verdict = ("C03/getter-disagrees", "%s returned %r, radio says %r" % (op[0], res[1], want), k)
+        if verdict is None and op[0] == "close_rx_pipe" and op[1] == 0 and res[0] == 0 and obj._pipe0_read_addr is not None:
+            verdict = ("C03/cached-view-differs-from-radio",
+                       "after close_rx_pipe(0) the driver still remembers a pipe-0 reading address (%s): the next listen = True "
+                       "would re-open the pipe the user closed" % bytes(obj._pipe0_read_addr).hex(), k)
         if verdict is None:
             sv = sync_violation(obj, snap)
             if sv:
